@@ -11,6 +11,7 @@ CONSTANTS
   ValueEq = TRUE
   SoloTries = 0
   SplitPC = FALSE
+  CommitRetry = TRUE
 INIT Init
 NEXT Next
 VIEW view
